@@ -2209,42 +2209,53 @@ theorem runPhases_marks (Y : YieldFn) (F : BodyFn) (s : Sess) (t : Nat) : Marks 
 /-- No task has been reported FAIL so far. -/
 def NoFail (s : Sess) : Prop := ∀ r ∈ s.reports, r.2 ≠ Outcome.fail
 
-/-- As long as nothing failed, no task carries a `skip_ancestor_failed` mark. -/
-def CleanMarks (s : Sess) : Prop := NoFail s → s.failMarks = [] ∧ s.renewed = []
+/-- No task has been skipped because an ancestor failed. -/
+def NoSkipPrev (s : Sess) : Prop := ∀ r ∈ s.reports, r.2 ≠ Outcome.skipPrevFailed
+
+/-- As long as nothing failed, no task carries a `skip_ancestor_failed` mark (and none was skipped for a failed ancestor). -/
+def CleanMarks (s : Sess) : Prop := NoFail s → s.failMarks = [] ∧ s.renewed = [] ∧ NoSkipPrev s
 
 /-- Everything below a task reported FAIL — in the *current* graph — carries a `skip_ancestor_failed` mark. -/
 def BelowFailedMarked (s : Sess) : Prop :=
   s.stop = false → ∀ f d, (f, Outcome.fail) ∈ s.reports → d ∈ taskDesc s.g f → failMarked s d = true
 
-theorem renewFailMarks_nofail (g : G) (s : Sess) (h : NoFail s) : renewFailMarks g s = s.renewed := by
-  unfold renewFailMarks
-  have : s.reports.filter (fun r => r.2 == Outcome.fail) = [] := by
+theorem renewFailMarks_clean (g : G) (s : Sess) (h : NoFail s) (h2 : NoSkipPrev s) : renewFailMarks g s = s.renewed := by
+  unfold renewFailMarks renewMarks
+  have : s.reports.filter (fun r => [Outcome.fail, Outcome.skipPrevFailed].contains r.2) = [] := by
     rw [List.filter_eq_nil_iff]
-    intro r hr; simpa using h r hr
+    intro r hr
+    have a := h r hr
+    have b := h2 r hr
+    simp [a, b]
   rw [this]; simp
 
 theorem recreate_marks_spec (x : Sess) (t : Nat) :
-    (recreate x t).failMarks = x.failMarks ∧ (∃ l, (recreate x t).reports = x.reports ++ l) ∧
-    (NoFail x → (recreate x t).renewed = x.renewed) ∧ BelowFailedMarked (recreate x t) := by
+    (recreate x t).failMarks = x.failMarks ∧ (∃ l, (recreate x t).reports = x.reports ++ l ∧ ∀ r ∈ l, r.2 = Outcome.fail) ∧
+    (NoFail x → NoSkipPrev x → (recreate x t).renewed = x.renewed) ∧ BelowFailedMarked (recreate x t) := by
   unfold recreate
   cases hc : createDag (toProject x.tasks) {} with
-  | error e => exact ⟨rfl, ⟨_, rfl⟩, fun _ => rfl, fun hs => by simp at hs⟩
+  | error e => exact ⟨rfl, ⟨_, rfl, by simp⟩, fun _ _ => rfl, fun hs => by simp at hs⟩
   | ok gm =>
     obtain ⟨g, m⟩ := gm
     simp only []
     cases hs : Sorter.fromDagAndSorter g isTaskV prio0 x.so with
-    | error e => exact ⟨rfl, ⟨_, rfl⟩, fun h => renewFailMarks_nofail g x h, fun hs => by simp at hs⟩
+    | error e => exact ⟨rfl, ⟨_, rfl, by simp⟩, fun h h2 => renewFailMarks_clean g x h h2, fun hs => by simp at hs⟩
     | ok so =>
-      refine ⟨rfl, ⟨[], by simp⟩, fun h => renewFailMarks_nofail g x h, fun _ f d hf hd => ?_⟩
+      refine ⟨rfl, ⟨[], by simp, by simp⟩, fun h h2 => renewFailMarks_clean g x h h2, fun _ f d hf hd => ?_⟩
       simp only [] at hf hd
-      unfold failMarked renewFailMarks
+      unfold failMarked renewFailMarks renewMarks
       simp only []
       simp
       by_cases h1 : d ∈ x.failMarks
       · exact Or.inl h1
       · by_cases h2 : d ∈ x.renewed
         · exact Or.inr (Or.inl h2)
-        · exact Or.inr (Or.inr ⟨⟨f, hf, hd⟩, h1, h2⟩)
+        · refine Or.inr (Or.inr ⟨?_, h1, h2⟩)
+          first
+            | exact ⟨f, Outcome.fail, ⟨hf, by simp⟩, hd⟩
+            | exact ⟨f, ⟨Outcome.fail, hf, by simp⟩, hd⟩
+            | exact ⟨f, ⟨Or.inl hf, hd⟩⟩
+            | (simp; exact ⟨f, Or.inl hf, hd⟩)
 
 theorem NoFail.of_append {s s' : Sess} {l : List (Nat × Outcome)} (h : s'.reports = s.reports ++ l) (hn : NoFail s') : NoFail s :=
   fun r hr => hn r (by rw [h]; exact List.mem_append.2 (Or.inl hr))
@@ -2258,29 +2269,46 @@ theorem Marks.invariants {t : Nat} {s s' : Sess} (h : Marks t s s') :
     obtain ⟨⟨l, hl⟩, hf, hst, hc, hb⟩ := ih
     refine ⟨⟨l, by rw [e2, hl]⟩, by rw [e3, hf], fun h => by rw [e5]; exact hst h, fun hcs hn => ?_, fun hbs hs f d hfr hd => ?_⟩
     · have := hc hcs (fun r hr => hn r (by rw [e2]; exact hr))
-      rw [e3, e4]; exact this
+      exact ⟨by rw [e3]; exact this.1, by rw [e4]; exact this.2.1, fun r hr => this.2.2 r (by rw [← e2]; exact hr)⟩
     · have := hb hbs (by rw [← e5]; exact hs) f d (by rw [← e2]; exact hfr) (by rw [← e1]; exact hd)
       unfold failMarked at this ⊢; rw [e3, e4]; exact this
   | re s' x _ e1 e2 e3 e4 e5 ih =>
     obtain ⟨⟨l, hl⟩, hf, hst, hc, _⟩ := ih
-    obtain ⟨r1, ⟨l2, r2⟩, r3, r4⟩ := recreate_marks_spec x t
+    obtain ⟨r1, ⟨l2, r2, r2f⟩, r3, r4⟩ := recreate_marks_spec x t
     refine ⟨⟨l ++ l2, by rw [r2, e2, hl, List.append_assoc]⟩, by rw [r1, e3, hf],
       fun h => (recreate_frame x t).2.2.2.2.2.2.2 (by rw [e5]; exact hst h), fun hcs hn => ?_, fun _ => r4⟩
     have hnx : NoFail x := NoFail.of_append r2 hn
-    have := hc hcs (fun r hr => hnx r (by rw [e2]; exact hr))
-    rw [r1, r3 hnx, e3, e4]; exact this
+    have hcl := hc hcs (fun r hr => hnx r (by rw [e2]; exact hr))
+    have hnsx : NoSkipPrev x := fun r hr => hcl.2.2 r (by rw [← e2]; exact hr)
+    refine ⟨by rw [r1, e3]; exact hcl.1, by rw [r3 hnx hnsx, e4]; exact hcl.2.1, fun r hr => ?_⟩
+    rw [r2] at hr
+    rcases List.mem_append.1 hr with hr | hr
+    · exact hnsx r hr
+    · rw [r2f r hr]; simp
 
-theorem reportChain_marks (s : Sess) (t : Nat) (r : Raised) :
+/-- The report hooks, given that SKIP_PREVIOUS_FAILED is only reported for a task that carries the mark. -/
+theorem reportChain_marks (s : Sess) (t : Nat) (r : Raised) (hanc : r = Raised.ancestorFailed → failMarked s t = true) :
     (CleanMarks s → CleanMarks (reportChain t r Generated.processReportOrder s)) ∧
     (BelowFailedMarked s → BelowFailedMarked (reportChain t r Generated.processReportOrder s)) := by
   rw [reportChain_eval]
-  have key : ∀ (s' : Sess) (o : Outcome), o ≠ Outcome.fail → s'.reports = s.reports ++ [(t, o)] → s'.failMarks = s.failMarks →
+  have key : ∀ (s' : Sess) (o : Outcome), o ≠ Outcome.fail → (o = Outcome.skipPrevFailed → failMarked s t = true) →
+      s'.reports = s.reports ++ [(t, o)] → s'.failMarks = s.failMarks →
       s'.renewed = s.renewed → s'.g = s.g → s'.stop = s.stop →
       (CleanMarks s → CleanMarks s') ∧ (BelowFailedMarked s → BelowFailedMarked s') := by
-    intro s' o ho e1 e2 e3 e4 e5
+    intro s' o ho hsp e1 e2 e3 e4 e5
     refine ⟨fun hc hn => ?_, fun hb hs f d hf hd => ?_⟩
     · have := hc (fun r hr => hn r (by rw [e1]; exact List.mem_append.2 (Or.inl hr)))
-      rw [e2, e3]; exact this
+      refine ⟨by rw [e2]; exact this.1, by rw [e3]; exact this.2.1, fun r hr => ?_⟩
+      rw [e1] at hr
+      rcases List.mem_append.1 hr with hr | hr
+      · exact this.2.2 r hr
+      · simp only [List.mem_singleton] at hr
+        rw [hr]
+        intro ho2
+        have hm := hsp ho2
+        unfold failMarked at hm
+        rw [this.1, this.2.1] at hm
+        simp at hm
     · rw [e1] at hf
       rcases List.mem_append.1 hf with hf | hf
       · have := hb (by rw [← e5]; exact hs) f d hf (by rw [← e4]; exact hd)
@@ -2291,7 +2319,8 @@ theorem reportChain_marks (s : Sess) (t : Nat) (r : Raised) :
       s'.stop = s.stop → (CleanMarks s → CleanMarks s') ∧ (BelowFailedMarked s → BelowFailedMarked s') := by
     intro s' e1 e2 e3 e4 e5
     refine ⟨fun hc hn => ?_, fun hb hs f d hf hd => ?_⟩
-    · have := hc (fun r hr => hn r (by rw [e1]; exact hr)); rw [e2, e3]; exact this
+    · have := hc (fun r hr => hn r (by rw [e1]; exact hr))
+      exact ⟨by rw [e2]; exact this.1, by rw [e3]; exact this.2.1, fun r hr => this.2.2 r (by rw [← e1]; exact hr)⟩
     · have := hb (by rw [← e5]; exact hs) f d (by rw [← e1]; exact hf) (by rw [← e4]; exact hd)
       unfold failMarked at this ⊢; rw [e2, e3]; exact this
   have failc : (CleanMarks s → CleanMarks ({ addReport s t .fail with failMarks := s.failMarks ++ taskDesc s.g t } : Sess)) ∧
@@ -2314,22 +2343,63 @@ theorem reportChain_marks (s : Sess) (t : Nat) (r : Raised) :
   | none =>
     simp only []
     split
-    · exact key _ .success (by simp) rfl rfl rfl rfl rfl
+    · exact key _ .success (by simp) (by simp) rfl rfl rfl rfl rfl
     · split
-      · exact key _ .success (by simp) rfl rfl rfl rfl rfl
+      · exact key _ .success (by simp) (by simp) rfl rfl rfl rfl rfl
       · exact crash _ rfl rfl rfl rfl rfl
-  | skippedUnchanged => exact key _ .skipUnchanged (by simp) rfl rfl rfl rfl rfl
-  | ancestorFailed => exact key _ .skipPrevFailed (by simp) rfl rfl rfl rfl rfl
+  | skippedUnchanged => exact key _ .skipUnchanged (by simp) (by simp) rfl rfl rfl rfl rfl
+  | ancestorFailed => exact key _ .skipPrevFailed (by simp) (fun _ => hanc rfl) rfl rfl rfl rfl rfl
   | skipped => exact failc
   | persisted => exact failc
   | wouldBeExecuted => exact failc
   | error => exact failc
 
+/-- `SkippedAncestorFailed` is raised by the skipping hook only, for a task that carries the mark at that moment. -/
+theorem runPhases_ancestorFailed (Y : YieldFn) (F : BodyFn) (s : Sess) (t : Nat)
+    (h : (runPhases Y F s t).2 = Raised.ancestorFailed) : failMarked (runPhases Y F s t).1 t = true := by
+  unfold runPhases at h ⊢
+  rw [setupChain_eval] at h ⊢
+  by_cases hfm : failMarked (setupProvisional s t) t = true
+  · simp only [hfm, if_true]
+  · simp only [hfm, Bool.false_eq_true, if_false] at h ⊢
+    exfalso
+    have hse : (setupExecute (setupProvisional s t) t).2 ≠ Raised.ancestorFailed := by
+      unfold setupExecute
+      split
+      · simp
+      · split
+        · simp
+        · split <;> simp
+    generalize setupExecute (setupProvisional s t) t = r2 at h hse
+    obtain ⟨s2, ra⟩ := r2
+    cases ra with
+    | none =>
+      simp only [] at h
+      generalize execChain Y F t Generated.executeOrder s2 = r3 at h
+      obtain ⟨s3, b⟩ := r3
+      cases b with
+      | true => simp at h
+      | false =>
+        simp only [] at h
+        unfold teardown at h
+        split at h
+        · simp at h
+        · split at h
+          · simp at h
+          · split at h
+            · simp at h
+            · simp only [] at h
+              split at h
+              · simp at h
+              · split at h <;> simp at h
+    | ancestorFailed => exact hse rfl
+    | _ => simp at h
+
 theorem protocol_marks (Y : YieldFn) (F : BodyFn) (s : Sess) (t : Nat) :
     (CleanMarks s → CleanMarks (protocol Y F s t)) ∧ (BelowFailedMarked s → BelowFailedMarked (protocol Y F s t)) := by
   unfold protocol
   have h1 := (runPhases_marks Y F s t).invariants
-  have h2 := reportChain_marks (runPhases Y F s t).1 t (runPhases Y F s t).2
+  have h2 := reportChain_marks (runPhases Y F s t).1 t (runPhases Y F s t).2 (runPhases_ancestorFailed Y F s t)
   exact ⟨fun h => h2.1 (h1.2.2.2.1 h), fun h => h2.2 (h1.2.2.2.2 h)⟩
 
 theorem loop_marks {Y : YieldFn} {F : BodyFn} : ∀ (picks : List Nat) (s s' : Sess), loop Y F s picks = .ok s' →
@@ -2339,8 +2409,6 @@ theorem loop_marks {Y : YieldFn} {F : BodyFn} : ∀ (picks : List Nat) (s s' : S
     obtain ⟨_, _, _, _, h5⟩ := loop_cons h
     have ih := loop_marks ts _ s' h5
     have hp := protocol_marks Y F { s with so := s.so.take [tv t] } t
-    have e : ∀ x : Sess, (CleanMarks x ↔ CleanMarks { x with so := x.so.finish [tv t] }) ∧
-        (BelowFailedMarked x ↔ BelowFailedMarked { x with so := x.so.finish [tv t] }) := fun x => ⟨Iff.rfl, Iff.rfl⟩
     exact ⟨fun hc => ih.1 (hp.1 hc), fun hb => ih.2 (hp.2 hb)⟩
 
 theorem initSess_marks {ts : List PTask} {w : World} {s0 : Sess} (h : initSess ts w = some s0) :
@@ -2351,7 +2419,7 @@ theorem initSess_marks {ts : List PTask} {w : World} {s0 : Sess} (h : initSess t
   · split at h
     · cases h
     · cases h
-      exact ⟨fun _ => ⟨rfl, rfl⟩, fun _ f d hf _ => by cases hf⟩
+      exact ⟨fun _ => ⟨rfl, rfl, fun r hr => by cases hr⟩, fun _ f d hf _ => by cases hf⟩
 
 theorem recreate_stop_reports (x : Sess) (t : Nat) (h : (recreate x t).stop = false) : (recreate x t).reports = x.reports := by
   unfold recreate at h ⊢
